@@ -386,6 +386,38 @@ def roundtrip(shapes, formats):
     return h
 
 
+EXTREME = NASTY + [1e-20, -3.5e-7, 9.999999999999999e-05, 1e16, -1.7976931348623157e+308, 4.9406564584124654e-324, 1e-4, 12345.678e-10]
+
+
+def float_roundtrip(formats):
+    """bit-exact coordinates for actual floats (tiny, huge, denormal, values printed in exponent notation): the token-flow
+    obligations show that the coordinate text is written and parsed without arithmetic; this one runs the real float formatting"""
+    def h(sx):
+        import mouette as M
+        fmt = formats[sx.choice("format", len(formats))] if len(formats) > 1 else formats[0]
+        shape = {"tet": "tet", "xyz": "cloud"}.get(fmt, "tri")
+        V, E, F, C = SHAPES[shape]
+        start = sx.choice("first_value", len(EXTREME))
+        P = [np.array([EXTREME[(start + 3 * i + k) % len(EXTREME)] for k in range(3)], dtype=float) for i in range(V)]
+        mesh = meshgen.build([p.copy() for p in P], E, F, C)
+        tag = " [extreme float coordinates as .%s]" % fmt
+        tmp = tempfile.mkdtemp(prefix="vf-c04-", dir="/var/tmp")
+        try:
+            path = os.path.join(tmp, "m." + fmt)
+            try:
+                M.mesh.save(mesh, path)
+                loaded = M.mesh.load(path)
+            except Exception as e:
+                sx.check(False, "save / load raised" + tag, detail=repr(e))
+                return
+            ok = len(loaded.vertices) == V and all(float(loaded.vertices[i][k]) == float(P[i][k]) for i in range(V) for k in range(3))
+            sx.check(ok, "loading the saved file gives back bit-identical vertex coordinates" + tag,
+                     detail="wrote %s read %s" % ([list(map(float, p)) for p in P][:2], [list(map(float, v)) for v in loaded.vertices][:2]))
+        finally:
+            shutil.rmtree(tmp, ignore_errors=True)
+    return h
+
+
 def foreign(shapes, formats):
     """files written by an independent writer load correctly"""
     def h(sx):
@@ -507,6 +539,8 @@ def obligations(tier):
     obs = []
     for fmt in FORMATS:
         obs.append(Ob("roundtrip-" + fmt, roundtrip(shapes, [fmt]), covers=COVERS, split=4, note="save+load of every shape as ." + fmt))
+    obs.append(Ob("float-roundtrip", float_roundtrip(["obj", "mesh", "geogram_ascii", "off", "tet", "xyz"]), covers=COVERS, split=3,
+                  note="bit-exact round trip of extreme concrete floats in every text format"))
     obs.append(Ob("foreign", foreign(["cloud", "poly", "tri", "tri2", "quad", "mixed", "penta", "tet", "hex"], ["obj", "off", "mesh", "tet", "xyz", "stl"]),
                   covers=COVERS, split=4, note="files written by an independent writer"))
     obs.append(Ob("geogram-attributes", geogram_attributes(["vertices"] if q else ["vertices", "edges", "faces"]), covers=COVERS, split=4,
